@@ -289,6 +289,29 @@ def other_navigators(ck: Check, n: int) -> None:
             ck.fail("wbnav-commutes", "WBNav: name(c).value() is not the cell under c", {"row": rowv})
 
 
+def known_shape_d17(ck: Check) -> None:
+    """a DEPENDING ON table inside a repeated group: value() of the whole works, index() into the group loses the counter"""
+    from stingray.schema_instance import EBCDIC
+
+    text = ("       01 R.\n           05 N PIC 9.\n           05 G OCCURS 2 TIMES.\n               10 A PIC X.\n"
+            "               10 T PIC XX OCCURS 0 TO 3 TIMES DEPENDING ON N.\n           05 Z PIC X.\n")
+    rec = ("2" + "a" + "bbcc" + "d" + "eeff" + "z").encode("cp037")
+    ck.case("D17-shape", feature="known-shape/odo-inside-repeated-group")
+    ck.oracle_evaluations += 1
+    try:
+        schema = load(build_docs(text)[0])
+        unp = EBCDIC()
+        nav = unp.nav(schema, rec)
+        whole = nav.value()
+        part = nav.name("G").index(1).name("A").value()
+        if part != whole["G"][1]["A"]:
+            ck.fail("D17:index-into-repeated-group-with-odo", "value of the part differs from the part of the value", {"copybook": text})
+    except BaseException as ex:  # noqa: BLE001
+        ck.fail("D17:index-into-repeated-group-with-odo",
+                f"index() into a repeated group that contains a DEPENDING ON table raises {type(ex).__name__}({ex}) although value() of the whole works",
+                {"copybook": text, "record": rec.hex()})
+
+
 def explore(ck: Check, n_trees: int) -> None:
     rng = ck.rng
     reqs: list[str] = [tables_line()]
@@ -303,6 +326,7 @@ def explore(ck: Check, n_trees: int) -> None:
         if i < 2:
             ck.sample({"copybook": render([root])})
     other_navigators(ck, 20)
+    known_shape_d17(ck)
     model = ck.driver.run(reqs)
     ck.compare_streams("NDNav values / decoded ranges vs Layout.valueAt∘Decode.unpack / touched", inputs, impl, model)
 
